@@ -17,7 +17,9 @@ import (
 
 	"verif/harness/core"
 	"verif/harness/gen"
+	"verif/harness/props/c02"
 	"verif/harness/ref"
+	"verif/harness/xtree"
 )
 
 type walker struct {
@@ -448,10 +450,10 @@ func Spec() *core.Spec {
 		ID:    "C17",
 		Level: "exploration",
 		Rule: "exhaustive walk of the registry through the public API (TagString over 0x420000-0x4203FF and 0x540000-0x5400FF, every pinned enumeration value and mask flag, " +
-			"written and read back by name through XML, JSON, binary and the text form), repeated in 3 fresh processes whose observations are compared; " +
+			"written and read back by name through XML, JSON, binary and the text form), repeated in 3 fresh processes whose observations are compared; plus every element, enumeration-value and mask-flag name used by the 5318 messages of the shipped OASIS vectors (documents produced elsewhere) resolved through pin and library; " +
 			"distinct = distinct registered (scope,name) entries visited",
 		Assumptions: []string{"/verif/ref/registry.json is the pinned KMIP 1.0-1.4 registry (dumped from the pinned tree and reviewed against the specification tables)"},
-		Required:    []string{"checks", "unregistered_numbers", "unknown_names", "mask_values.named-pair"},
+		Required:    []string{"checks", "unregistered_numbers", "unknown_names", "mask_values.named-pair", "oasis_names.tag", "oasis_names.enum", "oasis_names.mask"},
 		EvalCounter: "checks",
 		Families: []core.Family{
 			{Name: "walk", Isolated: true, Exhaustive: true, N: func(string) int { return 3 }, Run: func(c *core.Ctx, r *core.Rand, i int) {
@@ -467,7 +469,64 @@ func Spec() *core.Spec {
 					c.Sample(map[string]any{"observations": len(w.digest), "first": w.digest[:3], "digest": hex.EncodeToString(h[:8])})
 				}
 			}},
+			{Name: "oasis-names", Exhaustive: true, N: func(string) int { return len(c02.OasisMessages()) }, Run: func(c *core.Ctx, r *core.Rand, i int) {
+				// every element name, enumeration value name and mask flag name used by the shipped OASIS vectors
+				// (documents produced elsewhere) must denote, in the library, the number the pin gives it
+				reg := ref.LoadRegistry()
+				raw, err := xtree.RawXML(c02.OasisMessages()[i])
+				if err != nil {
+					c.Inconclusive("vector not well-formed: " + err.Error())
+					return
+				}
+				xtree.Names(raw, " ", func(kind, scope, name string) {
+					c.Count("oasis_names."+kind, 1)
+					c.Count("checks", 1)
+					switch kind {
+					case "tag":
+						t, ok := reg.Tags[name]
+						if !ok {
+							c.Violation("C17:oasis-name-unknown:tag:"+name, "element name "+name+" used by the OASIS vectors is not in the pinned registry", nil)
+							return
+						}
+						if ttlv.TagString(t) != name {
+							c.Violation("C17:oasis-name-unknown:tag:"+name, fmt.Sprintf("element name %s of the OASIS vectors: the library names tag %06X %q", name, t, ttlv.TagString(t)), nil)
+						}
+					case "enum":
+						e := reg.EnumBy[reg.Tags[scope]]
+						if e == nil {
+							c.Count("oasis_names.enum_scope_not_registered", 1) // enumeration of an unsupported operation
+							return
+						}
+						v, ok := e.Values[name]
+						if !ok {
+							c.Violation("C17:oasis-name-unknown:"+scope+":"+name, fmt.Sprintf("enumeration value name %q of scope %s used by the OASIS vectors is not in the pinned registry", name, scope), nil)
+							return
+						}
+						lv, err := ttlv.EnumByName(e.Tag, name)
+						if err != nil || lv != v {
+							c.Violation("C17:oasis-name-unknown:"+scope+":"+name, fmt.Sprintf("the library does not read %s value name %q of the OASIS vectors as %#x (got %#x, %v)", scope, name, v, lv, err), nil)
+						}
+					case "mask":
+						names := reg.Masks[scope]
+						idx := -1
+						for k, n := range names {
+							if n == name {
+								idx = k
+							}
+						}
+						if idx < 0 {
+							c.Violation("C17:oasis-name-unknown:"+scope+":"+name, fmt.Sprintf("mask flag name %q of scope %s used by the OASIS vectors is not in the pinned registry", name, scope), nil)
+							return
+						}
+						lv, err := ttlv.BitmaskByStr(reg.Tags[scope], name)
+						if err != nil || lv != int32(1)<<idx {
+							c.Violation("C17:oasis-name-unknown:"+scope+":"+name, fmt.Sprintf("the library does not read mask flag %q as bit %d", name, idx), nil)
+						}
+					}
+				})
+			}},
 		},
+		Shards: func(string) int { return 4 },
 		Finish: func(m *core.Merged) {
 			digests := map[string][]string{}
 			for tag, f := range m.Facts {
